@@ -42,10 +42,23 @@ package config
 //@     invariant rawFormN == old(rawFormN) && displayFormN == old(displayFormN) + cnt1
 //@   modifies *
 
-// durations are written through the Dst pointers only (assumed here; the parsing itself is time.ParseDuration)
+// every duration setting that is present is parsed and stored through its Dst pointer, an absent one leaves the
+// destination (the default) alone, an unparsable one is refused; nothing else is written
+//@ spec func parseDur(s string) time.Duration = libfn("time.ParseDuration", 0, s)
+//@ spec func parseDurErr(s string) error = libfn("time.ParseDuration", 1, s)
 //@ func ParseDurations
-//@   opts trusted
-//@   modifies heap(time.Duration)
+//@   property C15
+//@   requires forall i int :: 0 <= i && i < len(args) ==> args[i] != nil && args[i].Dst != nil
+//@   requires forall i int, j int :: 0 <= i && i < j && j < len(args) ==> args[i].Dst != args[j].Dst
+//@   ensures [set-durations-are-stored] err == nil ==> forall i int :: 0 <= i && i < len(args) && args[i].Duration != "" ==> *(args[i].Dst) == parseDur(args[i].Duration)
+//@   ensures [unset-durations-keep-the-default] forall i int :: 0 <= i && i < len(args) && args[i].Duration == "" ==> *(args[i].Dst) == old(*(args[i].Dst))
+//@   ensures [unparsable-is-refused] (exists i int :: 0 <= i && i < len(args) && args[i].Duration != "" && parseDurErr(args[i].Duration) != nil) ==> err != nil
+//@   loop 1 (range args)
+//@     invariant forall i int :: 0 <= i && i < idx1 && args[i].Duration != "" ==> *(args[i].Dst) == parseDur(args[i].Duration) && parseDurErr(args[i].Duration) == nil
+//@     invariant forall i int :: 0 <= i && i < len(args) && (i >= idx1 || args[i].Duration == "") ==> *(args[i].Dst) == old(*(args[i].Dst))
+//@     invariant forall d *time.Duration :: (forall i int :: 0 <= i && i < len(args) ==> args[i].Dst != d) ==> *d == old(*d)
+//@     invariant forall q *DurationOpt :: *q == old(*q)
+//@   modifies *args[].Dst
 
 // ---- "a value that validation rejects is refused at load time with an error": the environment overlay ----
 // envRefused: component ApplyEnvVars calls that returned an error (each of them validates what it applied)
@@ -64,3 +77,19 @@ package config
 //@   loop 2 (range section)
 //@     invariant envRefused == old(envRefused)
 //@   modifies envRefused
+
+// ---- "a configuration is reproduced exactly by saving it and loading it again": the per-section step of
+// Manager.ToJSON updates the entries of the registered components IN the document that was loaded; entries the
+// file carries for components this process did not register are written back as they were read ----
+//@ interface ComponentConfig.SetBaseDir(dir)
+//@   modifies nothing
+
+//@ closure Manager.ToJSON#1
+//@   property C15
+//@   requires dest != nil
+//@   ensures [unregistered-entries-survive] forall k string :: haskey(old(*dest), k) && !haskey(section, k) ==> haskey(*dest, k) && (*dest)[k] == old(*dest)[k]
+//@   ensures [every-registered-component-written] err == nil ==> forall k string :: haskey(section, k) ==> haskey(*dest, k)
+//@   loop 1 (range section)
+//@     invariant forall k string :: haskey(old(*dest), k) && !haskey(section, k) ==> haskey(*dest, k) && (*dest)[k] == old(*dest)[k]
+//@     invariant forall k string :: in(k, seen1) ==> haskey(*dest, k)
+//@   modifies *
